@@ -1,9 +1,17 @@
 #!/bin/sh
-# usage: confirm_seed.sh <worktree> : demo must FAIL in the worktree (change applied), PASS on /repo, tests must pass in the worktree
-wt=$1
+# usage: confirm_seed.sh <dir with patch.diff and demo.py>
+# Builds a FRESH scratch worktree of /repo, applies the patch, rebuilds, runs the demo (must exit 1) and the test suite (must pass),
+# runs the demo against unchanged /repo (must exit 0), removes the worktree.
+sd=$(cd $1 && pwd)
+wt=/tmp/wt/confirm_$$
+/verif/tools/mkworktree.sh confirm_$$ > /dev/null || exit 3
+cd $wt && git apply $sd/patch.diff || { echo "PATCH DOES NOT APPLY"; git -C /repo worktree remove --force $wt; exit 3; }
+if git diff --name-only | grep -q "pyx\|pxd"; then /venv/bin/python setup.py build_ext --inplace > /tmp/confirm_build.log 2>&1 || { echo "BUILD FAILED"; tail -5 /tmp/confirm_build.log; }; fi
+mkdir -p $wt/_seed && cp $sd/*.py $sd/*.xml $wt/_seed/ 2>/dev/null
 cd $wt && PYTHONPATH=$wt /venv/bin/python _seed/demo.py > /tmp/demo_with.txt 2>&1; a=$?
-rm -rf /tmp/seedrun; mkdir -p /tmp/seedrun/x/_seed; cp $wt/_seed/*.py /tmp/seedrun/x/_seed/ 2>/dev/null
-cd /repo && PYTHONPATH=/repo /venv/bin/python /tmp/seedrun/x/_seed/demo.py > /tmp/demo_without.txt 2>&1; b=$?
-cd $wt && t=$(PYTHONPATH=$wt /venv/bin/python -m pytest -q -p no:cacheprovider --timeout=900 2>&1 | grep -E "passed|failed" | tail -1); git checkout -q -- tests
-git -C /repo checkout -q -- tests; rm -rf /tmp/seedrun
-echo "with-change exit=$a ($(tail -1 /tmp/demo_with.txt | cut -c1-120)); unchanged exit=$b ($(tail -1 /tmp/demo_without.txt | cut -c1-60)); tests: $t"
+t=$(cd $wt && PYTHONPATH=$wt /venv/bin/python -m pytest -q -p no:cacheprovider --timeout=900 2>&1 | grep -E "passed|failed" | tail -1)
+rm -rf /tmp/seedrun_$$; mkdir -p /tmp/seedrun_$$/x/_seed; cp $sd/*.py $sd/*.xml /tmp/seedrun_$$/x/_seed/ 2>/dev/null
+cd /repo && PYTHONPATH=/repo /venv/bin/python /tmp/seedrun_$$/x/_seed/demo.py > /tmp/demo_without.txt 2>&1; b=$?
+git -C /repo checkout -q -- tests; rm -rf /tmp/seedrun_$$
+git -C /repo worktree remove --force $wt
+echo "with-change exit=$a ($(tail -1 /tmp/demo_with.txt | cut -c1-140)); unchanged exit=$b ($(tail -1 /tmp/demo_without.txt | cut -c1-60)); tests: $t"
